@@ -425,9 +425,11 @@ def _classify_wire(p, r, k: Consts) -> dict:
                             break
                         pos = mm.end()
                         if mm.group("href") is not None:
-                            ents.append(_url_entry("link", absx(html.unescape(mm.group("name"))), absx(mm.group("href"))))
+                            ents.append(_url_entry("link", absx(html.unescape(mm.group("name"))),
+                                                   absx(html.unescape(mm.group("href")))))
                         elif mm.group("shref") is not None:
-                            ents.append(_url_entry("search", absx(html.unescape(mm.group("sname"))), absx(mm.group("shref"))))
+                            ents.append(_url_entry("search", absx(html.unescape(mm.group("sname"))),
+                                                   absx(html.unescape(mm.group("shref")))))
                         else:
                             ents.append(_info(absx(html.unescape(mm.group("iname")))))
                     res.update(cls="ok", obj="menu", entries=ents)
@@ -446,9 +448,9 @@ def _classify_wire(p, r, k: Consts) -> dict:
                     name = absx(html.unescape(mm.group("name")))
                     mt = absx(html.unescape(mm.group("mt")))
                     if mm.group("action") is not None:
-                        e = _url_entry("search", name, absx(mm.group("action")), mt)
+                        e = _url_entry("search", name, absx(html.unescape(mm.group("action"))), mt)
                     elif mm.group("href") is not None:
-                        e = _url_entry("link", name, absx(mm.group("href")), mt)
+                        e = _url_entry("link", name, absx(html.unescape(mm.group("href"))), mt)
                     else:
                         e = _info(name)
                     e["icon"] = mm.group(1)
